@@ -22,6 +22,7 @@ def akai_subject(variant):
         files.insert(1, {"name": "PROGX", "kind": "raw", "ftype": 0xF0, "chain": [9], "data": AP.simple_program("PROGX", 1, ("KICK",)).hex()})
     if variant >= 2:
         files.append({"name": "SNARE", "n": 4026, "chain": [10], "seq": 5})
+        files.append({"name": "TAIL", "n": 6000, "chain": [12, 11], "seq": 6})      # a multi-sector file late in the table
     spec = {"parts": [{"vols": [{"name": "VOL", "dir": [3], "files": files}]}]}
     model = A.model_from_spec(spec)
     img, layout = A.build_akai(model)
@@ -192,8 +193,8 @@ def skip_collision(key, case, new_entry):
             nm = new_entry[:16].decode("ascii").rstrip(" \0")
         except UnicodeDecodeError:
             return False
-    if nm is None:
-        return False
+    if nm is None or nm == items[case["entry"]]["name"]:
+        return False          # the name itself is undamaged: nothing new collides
     for i, it in enumerate(items):
         if i == case["entry"]:
             continue
@@ -227,7 +228,7 @@ class Check(CheckBase):
         cases = []
         menu = MENU if self.quick else list(range(256))
         for key in ("akai0", "akai1", "akai2"):
-            n = {"akai0": 3, "akai1": 4, "akai2": 5}[key]
+            n = {"akai0": 3, "akai1": 4, "akai2": 6}[key]
             for e in range(n):
                 for pos in range(24):
                     for v in menu:
@@ -247,7 +248,16 @@ class Check(CheckBase):
                     diff = [k for k in range(len(it["name"])) if it["name"][k] != other["name"][k]]
                     if len(diff) == 1:
                         cases.append({"subject": key, "entry": e, "bytes": [[diff[0], A._CH[other["name"][diff[0]]]]]})
+        # targeted: the start field set to every used sector of the partition (first and inner sectors of other files)
+        for key in ("akai0", "akai1", "akai2"):
+            img, items, path, base = subject(key)
+            for e in range(len(items)):
+                for sec in range(3, 14):
+                    cases.append({"subject": key, "entry": e, "bytes": [[20, sec]]})
         rcases = []
+        for e in range(3):
+            for cl in range(2, 8):
+                rcases.append({"subject": "roland", "entry": e, "rec": 0, "bytes": [[28, cl]]})      # fat_entry low byte
         rcases.append({"subject": "roland", "entry": 1, "rec": 0, "bytes": [[2, ord("N")]]})
         rcases.append({"subject": "roland", "entry": 2, "rec": 0, "bytes": [[2, ord("M")]]})
         for e in range(3):
